@@ -85,6 +85,8 @@ def describe(repo: Repo, rep: Report, fname: str, kernels) -> Optional[dict]:
             if g == wg and add.equals(wa) and role not in found:
                 found[role] = name
                 break
+    from ..rules import no_early_exit
+    no_early_exit(rep, sc, FILE, fname, "accumulation loop", loops=[lp])
     missing = [r for r in ROLES if r not in found]
     extra = [n for n, d in accs if n not in found.values()]
     rep.ob("R-FORMULA", FILE, fname, "the ten running sums (x, x^2, 1 | x valid; y, y^2, 1 | y valid; x, y, xy, 1 | both valid) exist with exactly these guards",
